@@ -279,7 +279,8 @@ def main():
 
     def notafunc():
         pass
-    env = {"fa": fa, "three": 3, "T": tag.T, "cls": dict, "both": tag.T & tag.U}     # both: a combination of tags is not a tag
+    env = {"fa": fa, "three": 3, "T": tag.T, "cls": dict, "both": tag.T & tag.U,     # both: a combination of tags is not a tag
+           "lst": [1, 2], "dct": {"k": 1}}
     R = ["SelectorError"]
     SEL = [("unknown-meta", "fa > #nope", "refuse", False, R), ("unknown-meta-ctx", "fa(#bogus) > y", "refuse", False, R),
            ("unknown-meta-prefix", "fa > #values", "refuse", False, R), ("unknown-meta-prefix2", "fa(#enter2) > y", "refuse", False, R),
@@ -302,6 +303,7 @@ def main():
            ("not-a-function", "three > y", "refuse", False, ["TypeError"]), ("builtin-fn", "cls > y", "refuse", False, ["TypeError"]),
            ("unknown-module-ref", "/no.such.module/fn > y", "refuse", False, ["CodeNotFoundError", "SelectorError"]),
            ("unknown-ref", "/harness.worlds.lifeworld/nothing > y", "refuse", False, ["CodeNotFoundError", "SelectorError"]),
+           ("ok-unhashable-value", "fa(x=lst) > y", "accept", False, R), ("ok-unhashable-value2", "fa(x=dct, !y)", "accept", False, R),
            ("ok-chained-eq", "fa(x=1=2) > y", "accept", False, R), ("ok-chained-eq2", "fa > y=2=2", "accept", False, R),
            ("ok-chained-eq-call", "fa(x) = 1 = 2", "accept", False, R),
            ("ok-plain", "fa > y", "accept", False, R), ("tag-on-untagged", "fa > y:T", "refuse", False, R), ("ok-ctx", "fa(x) > y", "accept", False, R),
